@@ -705,6 +705,17 @@ func c32HasFile(m map[string]*c32File, f *c32File) *c32File {
 	return nil
 }
 
+// c32NameConflict: does a shard with the file name of one of the trashed shards
+// exist in the index (judged per repository, like age)?
+func c32NameConflict(files []*c32File, B *c32Snap) bool {
+	for _, f := range files {
+		if B.Index[f.Base] != nil {
+			return true
+		}
+	}
+	return false
+}
+
 func c32AnyOld(files []*c32File, now time.Time) bool {
 	minAge := now.Add(-24 * time.Hour)
 	for _, f := range files {
@@ -825,6 +836,21 @@ func c32Judge(B, A *c32Snap, assigned map[uint32]bool, now time.Time, merging bo
 			}
 			continue
 		}
+		if c32NameConflict(tf, B) {
+			// a shard of another repository owns one of the file names in the index:
+			// "restore" and "delete, it conflicts with an indexed copy" are both
+			// licensed; leaving it in the trash or restoring a part is not.
+			gone := 0
+			for _, f := range tf {
+				if c32HasFile(A.Index, f) == nil && c32HasFile(A.Trash, f) == nil {
+					gone++
+				}
+			}
+			if restored == 0 && gone == len(tf) {
+				j.ev["assigned_trash_deleted_file_name_conflict"]++
+				continue
+			}
+		}
 		j.keepObl++
 		if restored == len(tf) {
 			j.ev["assigned_restored_from_trash"]++
@@ -937,7 +963,7 @@ func c32Judge(B, A *c32Snap, assigned map[uint32]bool, now time.Time, merging bo
 				j.ev["trash_entry_deleted_conflict_with_index"]++
 			case old:
 				j.ev["trash_entry_deleted_older_than_24h"]++
-			case B.Index[f.Base] != nil:
+			case c32NameConflict(tf, B):
 				// same shard file name in the index (another id): counted as a
 				// conflict with an indexed copy, the statement does not say by what
 				// a conflict is recognised.
